@@ -43,15 +43,15 @@ class Results:
         self.records.append(r)
         return r
 
-    def ok(self, rule, anchor, what, site=None, detail=None):
-        return self._rec('ok', rule, anchor, what, site, detail)
+    def ok(self, rule, anchor, what, site=None, detail=None, key=None):
+        return self._rec('ok', rule, anchor, what, site, detail, key)
 
     def bad(self, rule, anchor, what, site=None, detail=None, key=None):
         return self._rec('violation', rule, anchor, what, site, detail, key)
 
     def check(self, cond, rule, anchor, what, site=None, detail=None, key=None):
         if cond:
-            return self.ok(rule, anchor, what, site, detail)
+            return self.ok(rule, anchor, what, site, detail, key)
         return self.bad(rule, anchor, what, site, detail, key)
 
     def violations(self):
